@@ -234,7 +234,7 @@ fn replay(path: &str, worker: bool) -> i32 {
             "e5-schedule" | "c14-deep" | "c14-grammar" | "c14-real" => props::c14::replay(r, &props::c14::oracle),
             "c13-case" => props::c13::replay(r),
             "c15-mobility" | "c15-stack" | "c15-autoplay" | "c15-real-auto" => props::c15::replay(r),
-            "c19-history" | "c19-process" | "c19-inert" | "c19-real" => props::c19::replay(r),
+            "c19-history" | "c19-process" | "c19-inert" | "c19-real" | "c19-large" => props::c19::replay(r),
             _ => Err(format!("unknown replay kind {:?}", kind)),
         }
     };
